@@ -168,9 +168,11 @@ def _host_modules():
     import itertools
     import math
     import re
+    import copy
+    import operator
     import textwrap
 
-    return (re, textwrap, itertools, functools, math)
+    return (re, textwrap, itertools, functools, math, copy, operator)
 
 
 HOST_MODULES = _host_modules()
@@ -439,6 +441,8 @@ class HostInterp:
             obj = self.ev(target.value, env)
             if isinstance(obj, Instance):
                 obj.__dict__[target.attr] = value
+            elif isinstance(obj, tuple) and len(obj) == 2 and obj[0] == "class":
+                self.__dict__.setdefault("class_attrs", {})[(obj[1], target.attr)] = value
             elif isinstance(obj, (ast.AST, Record)):
                 setattr(obj, target.attr, value)
             elif isinstance(obj, self.host_types) and type(obj).__module__.startswith("ovldlint."):
@@ -463,7 +467,7 @@ class HostInterp:
                 return self.globals_env[e.id]
             if e.id == "ast":
                 return ast
-            if e.id in ("re", "textwrap", "math", "itertools", "functools"):
+            if e.id in ("re", "textwrap", "math", "itertools", "functools", "copy", "operator"):
                 return __import__(e.id)
             if e.id in self.classes:
                 return ("class", e.id)
@@ -475,6 +479,13 @@ class HostInterp:
                 return {"True": True, "False": False, "None": None}[e.id]
             from . import orderdom as _od
 
+            if _od.PACKAGE is not None:
+                # a name some module of the package imports from a standard-library module the analysis may use
+                srcs = {imp[1:] for m_ in _od.PACKAGE.modules.values() for nm, imp in m_.imports.items() if nm == e.id and imp[0] == "ext"}
+                if len(srcs) == 1:
+                    modname, attr = next(iter(srcs))
+                    if modname in ("itertools", "functools", "math", "re", "textwrap", "copy", "operator") and attr and not attr.startswith("_"):
+                        return getattr(__import__(modname), attr)
             pf = _od._package_function(e.id)
             if pf is not None and not pf.node.decorator_list:
                 # a top-level function of another module of the package (a class's methods run in their own module)
@@ -492,6 +503,19 @@ class HostInterp:
                 return getattr(ast, e.attr)
             if isinstance(obj, tuple) and len(obj) == 2 and obj[0] == "class" and obj[1] in self.classes and e.attr in self.classes[obj[1]]:
                 return Closure(self.classes[obj[1]][e.attr], {})
+            if isinstance(obj, tuple) and len(obj) == 2 and obj[0] == "class" and obj[1] in self.classes:
+                # a plain class attribute (`name = <expr>` in the class body)
+                store = self.__dict__.setdefault("class_attrs", {})
+                if (obj[1], e.attr) in store:
+                    return store[(obj[1], e.attr)]
+                from . import orderdom as _od2
+
+                cs = [c for c in _od2.PACKAGE.all_classes() if c.name == obj[1]] if _od2.PACKAGE is not None else []
+                if len(cs) == 1:
+                    for st in cs[0].node.body:
+                        if isinstance(st, ast.Assign) and any(isinstance(t, ast.Name) and t.id == e.attr for t in st.targets):
+                            store[(obj[1], e.attr)] = self.ev(st.value, {})
+                            return store[(obj[1], e.attr)]
             if isinstance(obj, Instance):
                 if e.attr in obj.__dict__:
                     return obj.__dict__[e.attr]
@@ -711,6 +735,18 @@ class HostInterp:
         # special forms first
         d = dotted(e.func)
         if d == "next" and len(e.args) == 1:
+            try:
+                it = self.ev(e.args[0], env)
+            except AnalysisError:
+                return 7  # a counter the analysis does not model: some number
+            if hasattr(it, "__next__"):
+                try:
+                    return next(it)
+                except StopIteration:
+                    raise Raised("StopIteration")
+            if isinstance(it, Record) and getattr(it, "kind", None) == "counter":
+                it.n = getattr(it, "n", -1) + 1
+                return it.n
             return 7
         if d and d.endswith(".lookup_for") and len(e.args) == 1:
             key = self.ev(e.args[0], env)
@@ -790,7 +826,7 @@ class HostInterp:
                 return fn(*args, **kwargs)
             except (TypeError, ValueError, KeyError, IndexError) as ex:
                 raise AnalysisError(f"interpretation: {d or fn} failed on abstract values: {type(ex).__name__}: {ex}")
-        if fn in SAFE_BUILTINS.values() or (callable(fn) and getattr(fn, "__self__", None) is not None and isinstance(fn.__self__, self.host_types + (_re.Match, _re.Pattern))) or getattr(fn, "__module__", None) in ("re", "textwrap", "itertools", "functools", "math"):
+        if fn in SAFE_BUILTINS.values() or (callable(fn) and getattr(fn, "__self__", None) is not None and isinstance(fn.__self__, self.host_types + (_re.Match, _re.Pattern))) or getattr(fn, "__module__", None) in ("re", "textwrap", "itertools", "functools", "math", "copy", "operator", "_operator"):
             try:
                 return fn(*args, **kwargs)
             except (TypeError, ValueError, KeyError, IndexError) as ex:
